@@ -198,6 +198,13 @@ def main(module, argv=None):
         for fn in os.listdir(replay_dir):
             if fn.endswith(".json"):
                 os.remove(os.path.join(replay_dir, fn))
+    bounded = [r for r in results if r.get("bounded")]
+    results = [r for r in results if not r.get("bounded")]
+    for r in bounded:
+        if r["status"] == "refuted":
+            violations.append(r)
+        elif r["status"] != "discharged":
+            undecided.append(r)
     for r in results:
         b = by_backend.setdefault(r.get("backend", "z3-5.1.0-api"), {"count": 0, "seconds": 0.0})
         b["count"] += 1
@@ -300,7 +307,9 @@ def main(module, argv=None):
                 "families": len(fams),
                 "refuted": len(violations), "undecided": len(undecided),
                 "known_findings_matched": [f["what"] for f in kf],
-                "bounded_standins": ev.get("bounded_standins", []),
+                "bounded_standins": ev.get("bounded_standins", []) + [
+                    {"name": r["name"], "bound": r.get("bound"), "status": "held within the bound" if r["status"] == "discharged" else r["status"],
+                     "seconds": round(r.get("seconds", 0), 2)} for r in bounded],
                 "canaries_refuted": sum(1 for r in results if r.get("canary")),
                 "explanation": ev.get("explanation", ""),
             },
